@@ -70,6 +70,49 @@ def histInPlace : List Op :=
    .setSpImageInPlace 0, .setUp, .process, .setActivityInPlace 1, .setUp, .process, .setActivityInPlace 2, .setDensityInPlace 1,
    .setSpImageInPlace 1, .setUp]
 
+/-- the three-step history around the older switch: compute with the cache on; `set_cache_enabled(false)` and another
+    activity AND attenuation image (the arrays are not cleared by the switch; the setters remove them although the cache is
+    off); `set_up`, compute; `set_cache_enabled(true)`; `set_up` (allocates) -/
+def histThreeStep : List Op :=
+  baseConfig ++ [.setUp, .process, .setCacheEnabled false, .setActivity (some 1), .setDensityInPlace 1, .setSpImage (some 0), .setUp, .process,
+    .setCacheEnabled true, .setUp]
+/-- the same without `set_up` while the cache is off (this one also satisfies the stronger guard) -/
+def histThreeStep' : List Op :=
+  baseConfig ++ [.setUp, .process, .setCacheEnabled false, .setActivityInPlace 1, .setCacheEnabled true, .setUp]
+/-- by file name, `set_randomly_place_scatter_points` before the scatter-point image exists -/
+def histFile : List Op :=
+  [.setRndPlace false] ++ baseConfig ++ [.setUp, .process, .setTemplateFile 1 (W0.tmpl 1), .setUp]
+/-- `set_randomly_place_scatter_points` after the scatter points were sampled -/
+def histRnd : List Op := [.setRndPlace false] ++ baseConfig ++ [.setUp, .process, .setRndPlace true, .setUp]
+
+/-- NOT the code: `set_activity_image_sptr` as it would be if `remove_cache_for_integrals_over_activity` returned early
+    when the cache is disabled (mirroring the `if (!use_cache) return;` of `initialise_cache_…`) -/
+def setActivityLazyRemoval (a : Nat) (s : St) : St :=
+  if s.useCache then (setActivity (some a) s).1 else { s with act := some a, alreadySetUp := false }
+
+/-- … then the three-step history returns the estimate of the OLD activity image -/
+def lazyRemovalStale : Bool :=
+  match run W0 init (baseConfig ++ [.setUp, .process, .setCacheEnabled false]) with
+  | none => false
+  | some s1 =>
+    match run W0 (setActivityLazyRemoval 1 s1) [.setUp, .process, .setCacheEnabled true, .setUp] with
+    | none => false
+    | some s =>
+      match process W0 s with
+      | (_, .ok, some o) => decide (freshOut W0 s ≠ (.ok, some o))
+      | _ => false
+
+theorem lazyRemoval_stale : lazyRemovalStale = true := by decide
+
+theorem histThreeStep_fresh : freshAfter W0 histThreeStep = true := by decide
+theorem histThreeStep_guarded2 : (runGuarded2 W0 init histThreeStep).isSome = true := by decide
+theorem histThreeStep_not_guarded : (runGuarded W0 init histThreeStep).isSome = false := by decide
+theorem histThreeStep'_fresh : freshAfter W0 histThreeStep' = true := by decide
+theorem histThreeStep'_guarded : (runGuarded W0 init histThreeStep').isSome = true := by decide
+theorem histFile_fresh : freshAfter W0 histFile = true := by decide
+theorem histFile_guarded : (runGuarded W0 init histFile).isSome = true := by decide
+theorem histRnd_stale : staleAfter W0 histRnd = true := by decide
+
 theorem histInPlace_fresh : freshAfter W0 histInPlace = true := by decide
 theorem histInPlace_guarded : (runGuarded W0 init histInPlace).isSome = true := by decide
 
@@ -92,13 +135,14 @@ theorem invalidationFailures_eq :
        ("set_randomly_place_scatter_points", .scatt), ("set_randomly_place_scatter_points", .actCache),
        ("set_randomly_place_scatter_points", .attCache),
        ("set_cache_enabled", .actCache), ("set_cache_enabled", .attCache),
+       ("parsed keyword `use cache`", .actCache), ("parsed keyword `use cache`", .attCache),
        ("downsample_images_to_scanner_size", .spImage), ("downsample_images_to_scanner_size", .scatt)] := by decide
 
 theorem setUpForcedFailures_eq : setUpForcedFailures setterTable = ["set_use_cache"] := by decide
 
 /-- the rows of the table that pass both checks -/
 def goodRows : List String :=
-  ["set_template_proj_data_info", "set_activity_image_sptr", "set_density_image_sptr",
+  ["set_template_proj_data_info", "set_template_proj_data_info(filename)", "set_activity_image_sptr", "set_density_image_sptr",
    "set_density_image_for_scatter_points_sptr", "set_downsample_scanner_bool", "set_num_downsample_scanner_rings",
    "set_num_downsample_scanner_dets", "downsample_scanner", "downsample_density_image_for_scatter_points"]
 
